@@ -735,7 +735,10 @@ def check_distance(case, ctx):
         d = g.great_circle_distance(*args)
         ctx.check(np.ndim(d) == 0, "shape/great_circle_distance",
                   lambda: "scalar call returned shape %r" % (np.shape(d),))
-        ctx.check(abs(d - D[p, q]) <= 1e-13 * 180 and (
+        # scalar and array code paths of sin/cos may differ in the last
+        # bit, which the haversine formula amplifies near antipodes
+        ctx.check(abs(d - D[p, q]) <= 1e-13 * 180 + np.rad2deg(2 * tol[p, q])
+                  and (
             d == 0 if same[p, q] else True), "gcd/scalar-vs-array", lambda: (
                 "%r: scalar %r array %r" % (args, d, D[p, q])))
         d2 = g.great_circle_distance(args[2], args[3], args[0], args[1])
